@@ -115,9 +115,40 @@ fn main() {
     });
 }
 
+/// Every `line` case runs in its own empty directory (removed afterwards, also when the case panics): the real
+/// expansion globs the current directory and command substitutions with redirections create files in it, so a shared
+/// directory would make a case depend on what earlier / parallel cases left behind.
+struct CaseDir {
+    base: std::path::PathBuf,
+    dir: std::path::PathBuf,
+    pid: u32,
+}
+impl CaseDir {
+    fn enter() -> CaseDir {
+        static BASE: std::sync::OnceLock<std::path::PathBuf> = std::sync::OnceLock::new();
+        static N: std::sync::atomic::AtomicUsize = std::sync::atomic::AtomicUsize::new(0);
+        let base = BASE.get_or_init(|| std::env::current_dir().unwrap()).clone();
+        let n = N.fetch_add(1, std::sync::atomic::Ordering::SeqCst);
+        let dir = base.join(format!("case_{}_{}", std::process::id(), n));
+        let _ = std::fs::create_dir(&dir);
+        let _ = std::env::set_current_dir(&dir);
+        CaseDir { base, dir, pid: std::process::id() }
+    }
+}
+impl Drop for CaseDir {
+    fn drop(&mut self) {
+        if std::process::id() != self.pid {
+            return; // a forked child that is unwinding: the directory belongs to the parent
+        }
+        let _ = std::env::set_current_dir(&self.base);
+        let _ = std::fs::remove_dir_all(&self.dir);
+    }
+}
+
 fn op(f: &[&str]) -> String {
     match f[0] {
         "line" => {
+            let _cd = CaseDir::enter();
             let line = dec(f[1]);
             let segs = parser_line::line_to_cmds(&line);
             let mut out = format!("segs={}", qlist(&segs));
